@@ -335,6 +335,57 @@ def check_iterations(ctx, sc, o):
         ctx.nontriv(repr(('mainloop', sc['files'], sc['group'], sc['rules'], sc['sched'])))
 
 
+from cvise.passes.abstract import AbstractPass, PassResult
+
+class GrowShrink(AbstractPass):
+    def __init__(self, pattern):
+        super().__init__(None, {})
+        self.pattern = pattern
+        self.max_transforms = None
+
+    def __repr__(self):
+        return 'GrowShrink' + ''.join('+' if g else '-' for g in self.pattern)
+
+    def check_prerequisites(self):
+        return True
+
+    def new(self, test_case, _=None):
+        return 0
+
+    def advance(self, test_case, state):
+        return None
+
+    def advance_on_success(self, test_case, state):
+        return state + 1
+
+    def transform(self, test_case, state, process_event_notifier):
+        with open(test_case) as f:
+            data = f.read()
+        grow = self.pattern[state % len(self.pattern)]
+        data = data + 'xyz' if grow else data[:-1]
+        with open(test_case, 'w') as f:
+            f.write(data)
+        return (PassResult.OK, state)
+
+
+def run_growth_guard(ctx, rnd):
+    """A misbehaving pass whose accepted candidates grow the file on balance (+3, -1, +3, -1 ...) is stopped by the
+    3x growth guard of run_pass: the pass run ends after a bounded number of accepted steps."""
+    for pattern in ([1], [1, 0], [1, 1, 0], [1, 0, 0, 1], [0, 1]):
+        for size in (1, 4, 9):
+            for n in (1, 3):
+                sc = {'files': [('f0.c', 'a' * size)], 'rules': [([], 0)], 'passes': [], 'cfg': {'N': n, 'no_cache': True},
+                      'sched': [rnd.randint(0, 7) for _ in range(30)], 'max_accepts': 40 * size + 60, 'growth': pattern}
+                o = driver.run_scenario(sc, ctx.tmp, real_passes=[GrowShrink(pattern)])
+                ctx.evaluations += 1
+                ctx.count('growth-guard')
+                if o.diverged:
+                    ctx.violation('growth-unbounded', f'a pass whose accepted candidates follow the pattern {pattern} (1 = +3 bytes, 0 = -1 byte) on a {size}-byte file '
+                                  f'was still running after {40 * size + 60} accepted steps (the file should stop growing at 3x)', {'scenario': sc, 'mode': 'growth'})
+                else:
+                    ctx.nontriv(('growth', tuple(pattern), size, n))
+
+
 def run_giveup(ctx, rnd):
     """a round whose candidates never succeed is abandoned after GIVEUP + N + 1 candidates (cround_giveup)"""
     for it in range(20 if ctx.quick() else 200):
@@ -426,12 +477,16 @@ def explore(ctx):
         for i in bad[:5]:
             ctx.broke('correspondence', 'includes model run vs IncludesPass run', f'{items[i]}')
     run_main_loop(ctx, rnd)
+    run_growth_guard(ctx, rnd)
     run_giveup(ctx, rnd)
     ctx.sample({'passes': len(table), 'texts_per_pass': len(small) + len(rn), 'exhaustive_texts': len(ex)})
 
 
 def replay(ctx, payload):
     r = payload['replay']
+    if 'scenario' in r and r.get('mode') == 'growth':
+        run_growth_guard(ctx, random.Random(1))
+        return
     if 'scenario' in r:
         o = driver.run_scenario(r['scenario'], ctx.tmp, mode=r['mode'])
         print('replay: output', o.out)
